@@ -17,6 +17,12 @@
 (*   "fcode"  a response whose status is one of the pool's failureCodes                           *)
 (*   "neterr" a transport error         "hang"   no answer (needs the pool time-out to end)       *)
 (*   "cancel" the client goes away during the attempt (its context is cancelled)                  *)
+(*   "cdl"    the client's own deadline expires during the attempt (see sc.cdl)                    *)
+(* The client's request may carry a deadline of its own (a server-side request deadline, an outer   *)
+(* time limiter): sc.cdl = "none" | "later" (later than the pool time-out: it never expires while   *)
+(* the request is handled, and the pool time-out bounds every attempt all the same) | "earlier"     *)
+(* (it expires before the pool time-out would, during the attempt whose script entry is "cdl":      *)
+(* the client's request is over then, as after a cancellation).                                    *)
 (* Time: `w` is the time between the return of an attempt and the start of the next one, in the    *)
 (* unit of sc.base.                                                                               *)
 EXTENDS Integers, Sequences
@@ -26,9 +32,10 @@ CONSTANTS Scenarios    \* set of scenario records to explore
 
 (* scenario: [retry : BOOLEAN, max : 1..3, stream : BOOLEAN, cb : "none"|"closed"|"open", tmo : BOOLEAN,
               script : Seq(kind), cancelB : 0..3 (client cancels during the back-off after attempt cancelB; 0 = never),
-              base : Nat, f : 0..100 (randomisation factor in percent), exp : BOOLEAN]               *)
+              base : Nat, f : 0..100 (randomisation factor in percent), exp : BOOLEAN,
+              cdl : "none" | "later" | "earlier"]                                                   *)
 
-Kinds == {"ok", "okc", "fcode", "neterr", "hang", "cancel"}
+Kinds == {"ok", "okc", "fcode", "neterr", "hang", "cancel", "cdl"}
 
 (* outcome of one attempt as the Proxy filter reports it: result string, status code, and whether *)
 (* the client gets the backend's response (b) or a generated one                                   *)
@@ -39,6 +46,13 @@ Classify(k) ==
       [] k = "neterr" -> [res |-> "serverError", st |-> 503, fail |-> TRUE,  b |-> FALSE]
       [] k = "hang"   -> [res |-> "timeout",     st |-> 408, fail |-> TRUE,  b |-> FALSE]
       [] k = "cancel" -> [res |-> "clientError", st |-> 499, fail |-> TRUE,  b |-> FALSE]
+      [] k = "cdl"    -> [res |-> "deadline",    st |-> 0,   fail |-> TRUE,  b |-> FALSE]
+
+(* What the client may see of an outcome.  The property does not say whether the expiry of the      *)
+(* client's own deadline is reported as a time-out (408) or as the client's going away (499): both. *)
+Seen(o) == IF o.res = "deadline"
+           THEN {[o EXCEPT !.res = "timeout", !.st = 408], [o EXCEPT !.res = "clientError", !.st = 499]}
+           ELSE {o}
 
 ShortCircuited == [res |-> "shortCircuited", st |-> 503, fail |-> TRUE, b |-> FALSE]
 NoOutcome      == [res |-> "none", st |-> 0, fail |-> FALSE, b |-> FALSE]
@@ -73,6 +87,10 @@ WaitedEnough(i, w) ==
 WellFormed(s) ==
     /\ s.max \in 1..3 /\ Len(s.script) >= 1
     /\ \A i \in 1..Len(s.script) : s.script[i] \in Kinds /\ (s.script[i] = "hang" => s.tmo)
+    /\ s.cdl \in {"none", "later", "earlier"}
+    /\ (\E i \in 1..Len(s.script) : s.script[i] = "cdl") => s.cdl = "earlier"
+    \* ("earlier" than the pool time-out: no attempt of such a scenario waits for the pool time-out)
+    /\ s.cdl = "earlier" => \A i \in 1..Len(s.script) : s.script[i] # "hang"
     /\ s.cb \in {"none", "closed", "open"}
     /\ s.cancelB \in 0..3 /\ s.f \in 0..100
 
@@ -101,7 +119,7 @@ Attempt(w) ==
 Return ==
     /\ pc = "attempt"
     /\ outs' = Append(outs, Classify(KindOf(n)))
-    /\ cancelled' = (cancelled \/ KindOf(n) = "cancel")
+    /\ cancelled' = (cancelled \/ KindOf(n) \in {"cancel", "cdl"})
     /\ pc' = "waiting"
     /\ last' = [a |-> "ret", i |-> n, k |-> KindOf(n)]
     /\ UNCHANGED <<sc, n, recs, final>>
@@ -116,7 +134,7 @@ CancelWaiting ==
 (* the request ends: the client sees the last attempt's outcome; the breaker records once *)
 Finish ==
     /\ \/ /\ pc = "waiting"
-          /\ final' = outs[n]
+          /\ final' \in Seen(outs[n])
           /\ recs' = IF sc.cb = "closed" THEN 1 ELSE 0
        \/ /\ pc = "open"                               \* short-circuited: 503, nothing sent, nothing recorded
           /\ final' = ShortCircuited
@@ -151,9 +169,10 @@ BackoffRespected == [][(last'.a = "att" /\ n' = n + 1 /\ n >= 1) => WaitedEnough
 StreamSentOnce == sc.stream => n <= 1
 
 (* the client finally sees the outcome of the last attempt *)
-FinalIsLast == (pc = "done" /\ n > 0) => final = outs[n]
+FinalIsLast == (pc = "done" /\ n > 0) => final \in Seen(outs[n])
 
-(* a backend that does not answer in time yields timeout (408) *)
+(* a backend that does not answer in time yields timeout (408) - whatever deadline of its own the   *)
+(* client's request carries (sc.cdl = "later": the pool time-out is the one that expires)           *)
 TimeoutReported == (pc = "done" /\ n > 0 /\ KindOf(n) = "hang") => (final.res = "timeout" /\ final.st = 408)
 
 (* the breaker records exactly one outcome per admitted client request, however many retries *)
